@@ -13,31 +13,6 @@ variable {F : Type} [Scalar F] {R : F → Prop}
 
 /-! ### comma-joined lists -/
 
-theorem joinComma_cons_cons (x y : Str) (r : List Str) : joinComma (x :: y :: r) = x ++ ',' :: joinComma (y :: r) := by
-  simp [joinComma]
-
-theorem splitOn_joinComma (xs : List Str) (h : ∀ x ∈ xs, ',' ∉ x) (hne : xs ≠ []) : splitOn ',' (joinComma xs) = xs := by
-  cases xs with
-  | nil => exact absurd rfl hne
-  | cons x rest =>
-    induction rest generalizing x with
-    | nil => simpa [joinComma] using splitOn_no_sep ',' x (h x (by simp))
-    | cons y r ih =>
-      rw [joinComma_cons_cons, splitOn_append_sep ',' x _ (h x (by simp)),
-        ih y (fun z hz => h z (by simp [hz])) (by simp)]
-
-theorem joinComma_chars (xs : List Str) (p : Char → Prop) (hp : p ',') (h : ∀ x ∈ xs, ∀ c ∈ x, p c) :
-    ∀ c ∈ joinComma xs, p c := by
-  cases xs with
-  | nil => intro c hc; cases hc
-  | cons x rest =>
-    intro c hc
-    simp only [joinComma, List.mem_append, List.mem_flatMap, List.mem_cons] at hc
-    rcases hc with hc | ⟨y, hy, hc | hc⟩
-    · exact h x (by simp) c hc
-    · subst hc; exact hp
-    · exact h y (by simp [hy]) c hc
-
 def bookmarksValue (bs : List Int) : Str := joinComma (bs.map showInt)
 
 theorem bookmarksValue_chars (bs : List Int) : ∀ c ∈ bookmarksValue bs, isDig c = true ∨ c = '-' ∨ c = ',' := by
